@@ -86,6 +86,36 @@ def one(s):
             if l["type"] == "powerpump" and s.get("power_control"):
                 # a control that changes the power of a pump during the run
                 wn.add_control("pow%d" % k, C.Control(C.SimTimeCondition(wn, "=", s["H"]), C.ControlAction(link, "power", l["power"] * 1.5)))
+        if s.get("from_inp"):
+            # the subject is what the INP reader makes of the model's file, with a hand-written [STATUS] line that gives an
+            # active valve another setting than [VALVES] does (EPANET: the [STATUS] value is the initial setting)
+            import tempfile, os, shutil
+            d0 = tempfile.mkdtemp(prefix="c11i_", dir=common.scratch())
+            try:
+                f = os.path.join(d0, "m.inp")
+                rt0 = wn.options.time.report_timestep        # 'ALL' cannot be written
+                if isinstance(rt0, str):
+                    wn.options.time.report_timestep = s["H"]
+                w.network.write_inpfile(wn, f)
+                U = w.epanet.util
+                fu = U.FlowUnits[wn.options.hydraulic.inpfile_units]
+                extra = []
+                for l in s["links"]:
+                    if l["type"] in ("PRV", "PSV", "FCV", "TCV") and l["init"] == 2:
+                        v = l["setting"] * 0.75
+                        if l["type"] in ("PRV", "PSV"):
+                            v = U.from_si(fu, v, U.HydParam.Pressure)
+                        elif l["type"] == "FCV":
+                            v = U.from_si(fu, v, U.HydParam.Flow)
+                        extra.append("%s %.8g" % (l["name"], v))
+                text = open(f).read()
+                if "[STATUS]\n" not in text:
+                    raise common.MachineryError("written INP file has no [STATUS] section")
+                open(f, "w").write(text.replace("[STATUS]\n", "[STATUS]\n" + "\n".join(extra) + "\n", 1))
+                wn = w.network.read_inpfile(f)
+                wn.options.time.report_timestep = rt0
+            finally:
+                shutil.rmtree(d0, ignore_errors=True)
         dicts = [canon(wn.to_dict())]
         cp = copy.deepcopy(wn)
         results = []
@@ -163,6 +193,7 @@ def main(tier, replay):
             s["epanet"] = rnd.random() < 0.4
             s["reuse_sim"] = i % 3 == 0
             s["power_control"] = i % 4 == 1
+            s["from_inp"] = i % 5 == 2 and not s["power_control"]
             scns.append(s)
     with cf.ProcessPoolExecutor(max_workers=common.NCPU) as ex:
         outs = [o for o in ex.map(one, scns, chunksize=4) if o is not None]
